@@ -67,7 +67,8 @@ def contract(target, prop, **kw):
         ns = dict(cls.__dict__)
         ns.pop("__dict__", None)
         ns.pop("__weakref__", None)
-        c = type(cls.__name__, (Contract,), ns)
+        bases = tuple(b for b in cls.__bases__ if isinstance(b, type) and issubclass(b, Contract)) or (Contract,)
+        c = type(cls.__name__, bases, ns)
         c.target = target
         c.prop = prop
         for k, v in kw.items():
